@@ -153,6 +153,8 @@ HStep(st) ==
     [] st[1] \in {"items", "to_dict"} -> Items(st[2])
     [] st[1] = "count" -> CountT(st[2], st[3])
     [] OTHER -> FALSE
+\* (a "new" step may carry a 7th element naming an earlier table whose caller-side arrays the harness re-uses: level A ignores it,
+\*  because a table built from the same arrays is simply another table with the constructor's values)
 HHandles(st) == IF st[1] = "new" THEN {} ELSE IF st[1] \in {"add", "eq"} THEN {st[2], st[3]} ELSE {st[2]}
 HInit == tabs = <<>> /\ mtabs = <<>> /\ hlast = <<"none">>
 
